@@ -318,7 +318,7 @@ impl ParsedPacket {
             debug_assert!(!self.maybe_compressed);
         }
         let rr_len = rr.packet.len();
-        if DNS_MAX_UNCOMPRESSED_SIZE - self.packet().len() < rr_len {
+        if self.packet().len() + rr_len > DNS_MAX_UNCOMPRESSED_SIZE {
             bail!(DSError::PacketTooLarge)
         }
         let insertion_offset = self.insertion_offset(section)?;
